@@ -76,11 +76,24 @@ def gen_vec_history(rng, big, maxops):
         elif r < 0.5: ops.append("P %d %d %d" % (d, a, b))
         elif r < 0.62: ops.append("Q %d %d" % (d, a if rng.random() < 0.8 else d))
         elif r < 0.74: ops.append("S %d %d %d" % (d, a, scalar()))
-        elif r < 0.82: ops.append("R %d %d" % (d, scalar()))
+        elif r < 0.79: ops.append("R %d %d" % (d, scalar()))
+        elif r < 0.82:
+            # v *= (reference to v's own leading coefficient): the predicted value comes from the dense computation on the history so far
+            sofar = dense_vec("V %d %d %d %d %s" % (p, K, D, len(ops), " ".join(ops))).split(" ; V")[1 + d].split()
+            ops.append("RA %d %d" % (d, int(sofar[0].split(":")[1]) if sofar else scalar()))
         elif r < 0.85: ops.append("X %d" % d)
         elif r < 0.95: ops.append("D %d %d" % (a, b))
         else: ops.append("Z %d" % a)
-    return "%s %d %d %d %d %s" % ("VB" if big else "V", p, K, D, len(ops), " ".join(ops))
+    wide = "W" if rng.random() < 0.25 else ""       # a quarter of the histories with coordinates at both ends of the size_t index space
+    return "%s %d %d %d %d %s" % (("VWB" if big else "VW") if wide else ("VB" if big else "V"), p, K, D, len(ops), " ".join(ops))
+
+
+def model_line(case):
+    """the model (and the dense reference) see the history itself: the narrow type, the renaming of coordinates (VW) and the aliasing of the scalar (RA) are the harness's business"""
+    t = case.split(" ", 1)
+    if t[0] in ("Vs", "VW"): case = "V " + t[1]
+    elif t[0] == "VWB": case = "VB " + t[1]
+    return case.replace(" RA ", " R ") if case[0] == "V" else case
 
 
 def gen_short_dot(rng):
@@ -111,7 +124,7 @@ def dense_vec(line):
             d, a = int(t[i + 1]), int(t[i + 2]); i += 3
             st[d] = norm({k: st[d].get(k, 0) + st[a].get(k, 0) for k in set(st[a]) | set(st[d])})
         elif o == "S": d, a, c = int(t[i + 1]), int(t[i + 2]), int(t[i + 3]); i += 4; st[d] = norm({k: v * c for k, v in st[a].items()})
-        elif o == "R": d, c = int(t[i + 1]), int(t[i + 2]); i += 3; st[d] = norm({k: v * c for k, v in st[d].items()})
+        elif o in ("R", "RA"): d, c = int(t[i + 1]), int(t[i + 2]); i += 3; st[d] = norm({k: v * c for k, v in st[d].items()})
         elif o == "X": st[int(t[i + 1])] = {}; i += 2
         elif o == "D": a, b = int(t[i + 1]), int(t[i + 2]); i += 3; outs.append(sum(st[a][k] * st[b][k] for k in set(st[a]) & set(st[b])) % p)
         elif o == "Z": outs.append(len(st[int(t[i + 1])])); i += 2
@@ -443,7 +456,7 @@ def check(tier, seed):
         # EXECUTED there (theorem C18_is_prime covers them); the implementation's answer is compared with a Miller-Rabin reference instead
         heavy = {i for i, cs in enumerate(cases) if cs.split()[0] == "PB" and abs(int(cs.split()[1])) > 10 ** 12}
         light = [i for i in range(len(cases)) if i not in heavy]
-        mo_l = lib.run_model("c18", [("V" + cases[i][2:]) if cases[i].startswith("Vs ") else cases[i] for i in light])   # the Z model does not depend on the C++ type
+        mo_l = lib.run_model("c18", [model_line(cases[i]) for i in light])   # the Z model does not depend on the C++ type
         mo = [None] * len(cases)
         for i, m in zip(light, mo_l): mo[i] = m
         for i in heavy: mo[i] = "P 1" if is_prime_ref(int(cases[i].split()[1])) else "P 0"
@@ -457,7 +470,7 @@ def check(tier, seed):
         for i, cs in enumerate(cases):
             t = cs.split(); k = t[0]
             nt = (k in ("G", "GB") and t[1] != "0" and t[2] != "0") or (k in ("I", "IB") and int(t[2]) > 1) or \
-                 (k in ("P", "PB") and int(t[1]) >= 2) or (k in ("V", "VB", "Vs") and (" P " in cs or " S " in cs or " R " in cs or " Q " in cs))
+                 (k in ("P", "PB") and int(t[1]) >= 2) or (k in ("V", "VB", "Vs", "VW", "VWB") and (" P " in cs or " S " in cs or " R " in cs or " Q " in cs or " RA " in cs))
             c.count(cs, nt, bucket=k)
         bad = lib.diff_lines(cases, mo, io)
         c.extra["disagreements_checked"] = len(bad)
@@ -509,7 +522,7 @@ def replay(path):
             print("VIOLATION property=%s replay=%s" % (PID, path)); return 1
         return 0
     exe, err = lib.build_cpp(name="c18", srcs=["c18.cpp"])
-    m, i = lib.run_model("c18", [("V" + line[2:]) if line.startswith("Vs ") else line], par=1)[0], lib.run_lines([exe], [line], par=1)[0]
+    m, i = lib.run_model("c18", [model_line(line)], par=1)[0], lib.run_lines([exe], [line], par=1)[0]
     why = judge(line, i)
     print("case :", line); print("model:", m); print("impl :", i); print("judge:", why)
     if why or m != i:
